@@ -10,6 +10,7 @@ def register(reg):
     register_extents(reg)
     register_bbox(reg)
     register_xy_extents(reg)
+    register_mask_mode(reg)
     reg.record('BoundingBox', {'ixmin': 'int', 'ixmax': 'int', 'iymin': 'int', 'iymax': 'int'})
 
     reg.add(Contract(
@@ -394,4 +395,26 @@ def register_xy_extents(reg):
                       f'abs(p) <= result[0] and abs(q) <= result[1]))')],
             mutants=[(f'return self.{R}, self.{R}', f'return self.{R} / 2, self.{R}')]
             + ([('return self.r_out, self.r_out', 'return self.r_in, self.r_in')] if R != 'r' else []),
+        ))
+
+
+def register_mask_mode(reg):
+    """How the documented methods map onto the kernels' (use_exact, subpixels) arguments:
+    'center' = one sample per pixel, 'subpixel' = subpixels^2 samples, 'exact' = analytic overlap
+    (rectangles: the documented 32 x 32 subsampling)."""
+    T = 'photutils/aperture/core.py::PixelAperture._translate_mask_mode'
+    for rect in (False, True):
+        reg.add(Contract(
+            target=T, props=['C01'], kind='staticmethod', tag=f'rectangle={rect}',
+            params={'mode': 'str', 'subpixels': 'int', 'rectangle': ('const', rect)},
+            cases={'mode': ['center', 'subpixel', 'exact']},
+            raises=[('ValueError', "mode == 'subpixel' and subpixels <= 0")],
+            ensures=[('center', "implies(mode == 'center', result == (0, 1))"),
+                     ('subpixel', "implies(mode == 'subpixel', result == (0, subpixels))"),
+                     ('exact', "implies(mode == 'exact', result == "
+                               + ('(0, 32))' if rect else '(1, 1))'))],
+            mutants=([('subpixels = 32', 'subpixels = 16')] if rect else []) + [
+                     ("if mode == 'center':\n            use_exact = 0\n            subpixels = 1",
+                      "if mode == 'center':\n            use_exact = 0\n            subpixels = 2"),
+                     ('subpixels <= 0', 'subpixels < 0')],
         ))
